@@ -263,25 +263,44 @@ def build_model(force=False):
 # ----------------------------------------------------------------------------
 # Go harness, rebuilt from REPO's current working tree on every check
 
+def _write_sum(dst):
+    """go.sum of the harness module = lal's go.sum + harness/go.sum.extra (sums of
+    modules only the harness needs, e.g. golang.org/x/tools for cmd/lockgraph)"""
+    body = open(os.path.join(REPO, "go.sum")).read()
+    extra = os.path.join(HARNESS, "go.sum.extra")
+    if os.path.exists(extra):
+        if body and not body.endswith("\n"):
+            body += "\n"
+        body += open(extra).read()
+    open(dst, "w").write(body)
+
+
+def _harness_mod_args():
+    _write_sum(os.path.join(HARNESS, "go.sum"))
+    if REPO == "/repo":
+        return []
+    modfile = os.path.join(HARNESS, "go.mod")
+    alt = os.path.join(BUILD, "alt-%s.mod" % hashlib.sha1(REPO.encode()).hexdigest()[:8])
+    os.makedirs(BUILD, exist_ok=True)
+    open(alt, "w").write(open(modfile).read().replace("=> /repo", "=> " + REPO))
+    _write_sum(alt[:-4] + ".sum")
+    return ["-modfile=" + alt]
+
+
 def build_probe():
     os.makedirs(BIN, exist_ok=True)
-    shutil.copy(os.path.join(REPO, "go.sum"), os.path.join(HARNESS, "go.sum"))
-    modfile = os.path.join(HARNESS, "go.mod")
-    args = []
-    if REPO != "/repo":
-        alt = os.path.join(BUILD, "alt-%s.mod" % hashlib.sha1(REPO.encode()).hexdigest()[:8])
-        open(alt, "w").write(open(modfile).read().replace("=> /repo", "=> " + REPO))
-        shutil.copy(os.path.join(REPO, "go.sum"), alt[:-4] + ".sum")
-        args = ["-modfile=" + alt]
+    args = _harness_mod_args()
     exe = os.path.join(BIN, "lalprobe" + ("" if REPO == "/repo" else "-" + hashlib.sha1(REPO.encode()).hexdigest()[:8]))
     rc, out = sh(["go", "build", "-tags", "verif"] + args + ["-o", exe, "./cmd/lalprobe"], cwd=HARNESS, env=GOENV, timeout=900)
     return rc == 0, out, exe
 
 
-def build_tool(name):
+def build_tool(name, extra_args=(), env=None, suffix=""):
     """other harness commands (e.g. lockgraph)"""
-    exe = os.path.join(BIN, name)
-    rc, out = sh(["go", "build", "-tags", "verif", "-o", exe, "./cmd/" + name], cwd=HARNESS, env=GOENV, timeout=900)
+    os.makedirs(BIN, exist_ok=True)
+    args = _harness_mod_args()
+    exe = os.path.join(BIN, name + suffix + ("" if REPO == "/repo" else "-" + hashlib.sha1(REPO.encode()).hexdigest()[:8]))
+    rc, out = sh(["go", "build", "-tags", "verif"] + list(extra_args) + args + ["-o", exe, "./cmd/" + name], cwd=HARNESS, env=env or GOENV, timeout=900)
     return rc == 0, out, exe
 
 
@@ -559,7 +578,10 @@ def generic_diff(mod, ctx, cases, cov, violations, known_hits, notes):
                     cov["oracle_failed"] += 1
         if bad_oracle is not None:
             fid = classify(c, io_full) if classify else None
-            if fid:
+            # a listed finding is only recognised when the faithful model reproduces the
+            # implementation's behaviour exactly; the same symptom with a different
+            # observation is a different violation
+            if fid and io == mo:
                 known_hits.setdefault(fid, "%s on `%s`" % (bad_oracle, short(c.line, 160)))
                 continue
             if reported < 5:
